@@ -191,7 +191,7 @@ pub fn c01_value() -> impl Strategy<Value = f64> {
         4 => -100.0..100.0f64,
         2 => (-30.0..30.0f64, any::<bool>()).prop_map(|(e, s)| if s { -10f64.powf(e) } else { 10f64.powf(e) }),
         1 => (1e9..1.000001e9f64),
-        1 => proptest::sample::select(vec![0.0, 1.0, -1.0, 2.5, 1e30, -1e30, 1e-30]),
+        1 => proptest::sample::select(vec![0.0, -0.0, 1.0, -1.0, 2.5, 1e30, -1e30, 1e-30]),
     ]
 }
 pub fn weight_value() -> impl Strategy<Value = f64> {
@@ -262,7 +262,7 @@ pub fn run(cx: &Ctx) {
         let kind = kind_of(ty);
         let ty = ty.to_string();
         let max_ops = cx.by(30, 80);
-        cx.run_pt(&Identity, cx.by(150, 4000), cx.workers.min(8), move || {
+        cx.run_pt(&Identity, cx.by(800, 10000), cx.workers.min(8), move || {
             let ty = ty.clone();
             vec(op_strategy(kind), 0..max_ops).prop_map(move |ops| H11 { ty: ty.clone(), ops })
         }, "histories of 0..30 (thorough 80) operations over 3 estimators, values over the C01 domain");
